@@ -12,17 +12,17 @@ Lemma no_lost_notify : forall evs, let s := run evs init in
   (ss s <> SOpen -> closeN s = true \/ ppc s = true \/ lc_mid_open (lc s) = true \/ dpc s = true) /\
   (sclosing s = true -> closeN s = true).
 Proof.
-  intros evs s. destruct (winv_run evs init winv_init) as [h1 h2 h3 _ _ _ _ _ _]. fold s in h1, h2, h3. auto.
+  intros evs s. destruct (winv_run evs init winv_init) as [h1 h2 h3 _ _]. fold s in h1, h2, h3. auto.
 Qed.
 
 Lemma wake_stable : forall s e, rd s = RParked -> wake_enabled s = true -> is_reader_ev e = false ->
   rd (step s e) = RParked /\ wake_enabled (step s e) = true.
 Proof.
   intros s e Hr Hw He.
-  destruct s as [pend0 rbuf0 token0 closeN0 ss0 epc0 ppc0 lc0 sclosing0 dpc0 now0 dl0 tmr0 tch0 use_t0 armed0 rd0 minsz0 res0].
+  destruct s as [pend0 rbuf0 token0 closeN0 ss0 epc0 ppc0 lc0 sclosing0 dpc0 now0 dl0 tmr0 tch0 ptick0 use_t0 armed0 rd0 minsz0 res0].
   cbn in Hr. subst rd0. unfold wake_enabled in *. cbn in Hw.
   destruct e; try discriminate; cbn [step];
-    cbn [pend rbuf token closeN ss epc ppc lc sclosing dpc now dl tmr tch use_t armed rd minsz res];
+    cbn [pend rbuf token closeN ss epc ppc lc sclosing dpc now dl tmr tch ptick use_t armed rd minsz res];
     brk; cbn; rewrite ?orb_true_r; auto.
   (* Fire: tch becomes true *)
   all: try (split; [reflexivity|]; destruct token0, closeN0, use_t0, tch0; cbn in *; auto).
@@ -30,12 +30,12 @@ Qed.
 
 Lemma wake_or_helper : forall evs, let s := run evs init in
   rd s = RParked ->
-  ((0 < pend s)%nat \/ ss s <> SOpen \/ sclosing s = true \/ (use_t s = true /\ armed s <= now s)) ->
+  ((0 < pend s)%nat \/ ss s <> SOpen \/ sclosing s = true) ->
   wake_enabled s = true \/ helper_pending s = true.
 Proof.
-  intros evs s Hr Hc. destruct (winv_run evs init winv_init) as [h1 h2 h3 h4 h5 h6 h7 h8 h9].
-  fold s in h1, h2, h3, h4, h5, h6, h7, h8, h9. unfold wake_enabled, helper_pending. rewrite Hr in *. cbn in *.
-  destruct Hc as [Hc|[Hc|[Hc|[Hu Ha]]]].
+  intros evs s Hr Hc. destruct (winv_run evs init winv_init) as [h1 h2 h3 h8 h9].
+  fold s in h1, h2, h3, h8, h9. unfold wake_enabled, helper_pending. rewrite Hr in *. cbn in *.
+  destruct Hc as [Hc|[Hc|Hc]].
   - destruct (h1 Hc eq_refl) as [E|E]; rewrite E; cbn; rewrite ?orb_true_r; auto.
   - destruct (h2 Hc) as [E|[E|[E|E]]]; [| | |right; rewrite E; rewrite ?orb_true_r; reflexivity].
     + left. rewrite E. rewrite orb_true_r. reflexivity.
@@ -43,16 +43,23 @@ Proof.
     + right. unfold lc_mid_open in E. destruct (lc s) as [| |o|o|o]; try discriminate; destruct o; try discriminate;
         cbn; rewrite ?orb_true_r; reflexivity.
   - left. rewrite (h3 Hc). rewrite orb_true_r. reflexivity.
-  - destruct (h7 eq_refl Hu) as [_ [E|E]].
-    + left. rewrite Hu, E. cbn. rewrite orb_true_r. reflexivity.
-    + right. rewrite E. apply Z.leb_le in Ha. rewrite Ha. rewrite orb_true_r. reflexivity.
+Qed.
+
+(* the deadline: a parked reader whose deadline has passed has the timer value in its channel, or the runtime
+   is at the step that puts it there (FireB), or the expiry itself is enabled (Fire / FireA) *)
+Lemma wake_or_helper_deadline : forall evs, let s := run evs init in
+  rd s = RParked -> use_t s = true -> armed s <= now s ->
+  tch s = true \/ ptick s = true \/ tmr s = Some (armed s).
+Proof.
+  intros evs s Hr Hu Ha. destruct (tinv_run evs init tinv_init) as [h4 h5 h7].
+  fold s in h7. rewrite Hr in h7. apply (h7 eq_refl Hu).
 Qed.
 
 (* the death of the session releases a parked reader whatever the state of its stream *)
 Lemma session_close_releases : forall evs, let s := run evs init in
   rd s = RParked -> sclosing s = true -> wake_enabled s = true.
 Proof.
-  intros evs s Hr Hc. destruct (winv_run evs init winv_init) as [_ _ h3 _ _ _ _ _ _]. fold s in h3.
+  intros evs s Hr Hc. destruct (winv_run evs init winv_init) as [_ _ h3 _ _]. fold s in h3.
   unfold wake_enabled. rewrite (h3 Hc). rewrite orb_true_r. reflexivity.
 Qed.
 
@@ -65,38 +72,53 @@ Definition close_releases_full : Prop :=
 Lemma close_releases : close_releases_full.
 Proof. intros evs s Hr Hc. apply (wake_or_helper evs Hr). right. left. exact Hc. Qed.
 
-Lemma timeout_step : forall s e, WInv s ->
+Lemma timeout_step : forall s e, TInv s ->
   res (step s e) = Some RErrTimeout -> res s <> Some RErrTimeout ->
   exists d, dl s = Some d /\ d <= now s.
 Proof.
-  intros s e [h1 h2 h3 h4 h5 h6 h7 h8 h9].
-  destruct s as [pend0 rbuf0 token0 closeN0 ss0 epc0 ppc0 lc0 sclosing0 dpc0 now0 dl0 tmr0 tch0 use_t0 armed0 rd0 minsz0 res0].
-  cbn in h1, h2, h3, h4, h5, h6, h7, h8, h9.
+  intros s e [h4 h5 h7].
+  destruct s as [pend0 rbuf0 token0 closeN0 ss0 epc0 ppc0 lc0 sclosing0 dpc0 now0 dl0 tmr0 tch0 ptick0 use_t0 armed0 rd0 minsz0 res0].
+  cbn in h4, h5, h7.
   destruct e; cbn [step]; unfold reader_step, wake, finish_early, finish_late, move_to, set_rd;
-    cbn [pend rbuf token closeN ss epc ppc lc sclosing dpc now dl tmr tch use_t armed rd minsz res];
+    cbn [pend rbuf token closeN ss epc ppc lc sclosing dpc now dl tmr tch ptick use_t armed rd minsz res];
     brk; cbn; intros A B; try congruence.
   (* the only case left: the parked select took the timer branch *)
   all: norm; exists armed0; cbn in *; intuition congruence.
 Qed.
 
-Lemma timeout_not_early : forall evs e, let s := run evs init in
-  res (step s e) = Some RErrTimeout -> res s <> Some RErrTimeout ->
-  exists d, dl s = Some d /\ d <= now s.
-Proof. intros evs e s. apply timeout_step. apply winv_run. exact winv_init. Qed.
+(* "ErrTimeout is never early", in full: over EVERY schedule, the two-step expiry FireA/FireB included *)
+Definition timeout_not_early_full : Prop :=
+  forall evs e, let s := run evs init in
+    res (step s e) = Some RErrTimeout -> res s <> Some RErrTimeout ->
+    exists d, dl s = Some d /\ d <= now s.
+
+Lemma timeout_not_early : timeout_not_early_full.
+Proof. intros evs e s. apply timeout_step. apply tinv_run. exact tinv_init. Qed.
+
+(* REGRESSION: the history that refuted the statement while readMore re-armed one shared timer.  First read:
+   deadline 10, data arrives just as the timer expires (FireA: Stop() reports false, the value is not in the
+   channel yet); the reader is woken by the data and returns; the value lands afterwards (FireB) - in the channel
+   of THAT call's timer.  Next read (one more byte), deadline 2010, at time 10: a timer of its own, the select
+   has no ready timer branch. *)
+Definition witness_stale_tick : list ev :=
+  [SetDL (Some 10); RCall 1; RStep; RStep; RStep; Tick 10; EAdd 1; EFin; FireA; RWake BNotify; RStep; FireB;
+   SetDL (Some 2010); RCall 2; RStep; RStep].
+
+Lemma stale_tick_regression :
+  let s := run witness_stale_tick init in
+  rd s = RParked /\ use_t s = true /\ tch s = false /\ step s (RWake BTimer) = s.
+Proof. vm_compute. repeat split. Qed.
 
 Lemma enough : forall evs n, let s := run evs init in res s = Some (ROk n) -> (minsz s <= n)%nat.
-Proof. intros evs n s. destruct (winv_run evs init winv_init) as [_ _ _ _ _ _ _ h8 _]. apply h8. Qed.
+Proof. intros evs n s. destruct (winv_run evs init winv_init) as [_ _ _ h8 _]. apply h8. Qed.
 
-(* the timer value is delivered only at or after the armed deadline, and only a call that armed
-   the timer can see it *)
+(* the timer value a parked call can see is in ITS channel only at or after the deadline this call armed
+   (no value of an earlier call's timer is ever visible) *)
 Lemma timer_sound : forall evs, let s := run evs init in
-  tch s = true -> use_t s = true /\ armed s <= now s /\ dl s = Some (armed s).
+  rd_pre (rd s) = false -> use_t s = true -> tch s = true -> armed s <= now s /\ dl s = Some (armed s).
 Proof.
-  intros evs s Ht. destruct (winv_run evs init winv_init) as [h1 h2 h3 h4 h5 h6 h7 h8 h9].
-  fold s in h4, h6, h7. destruct (h6 Ht) as [Hu Ha]. split; [assumption|]. split; [assumption|].
-  destruct (rd_pre (rd s)) eqn:E.
-  - destruct (h4 eq_refl) as [_ F]. congruence.
-  - apply (h7 eq_refl Hu).
+  intros evs s Hr Hu Ht. destruct (tinv_run evs init tinv_init) as [h4 h5 h7].
+  fold s in h7. destruct (h7 Hr Hu) as [A [B _]]. split; [apply B; assumption|assumption].
 Qed.
 
 (* ---------------------------------------------------------------------------------------- *)
